@@ -140,6 +140,13 @@ impl Bloom {
     }
 }
 
+#[cfg(feature = "verif-hooks")]
+impl Bloom {
+    pub(crate) fn verif_words(&self) -> Vec<u64> {
+        self.bitset.clone()
+    }
+}
+
 #[cfg(test)]
 mod test {
     use super::*;
